@@ -98,6 +98,8 @@ func init() {
 		add("Y", bystanderShapes)
 		add("Z", closureInGeneratorShapes)
 		add("O", optimiserBait)
+		add("K", panicShapes)
+		add("W", scopingShapes)
 		progs = append(progs, rangeShapePrograms()...)
 		progs = append(progs, iteratorValuePrograms()...)
 		progs = append(progs, delegationPrograms()...)
